@@ -74,7 +74,7 @@ class Scratch:
 
 class Harness:
     def __init__(self, name, kind, what, tier="quick", bound=None, carries=True, expect="pass",
-                 timeout=600, unwind=None, solver=None):
+                 timeout=600, unwind=None, solver=None, optional=False):
         self.name = name          # harness fn name (unique per property)
         self.kind = kind          # 'complete' | 'bounded' | 'witness'
         self.what = what          # one line: the contract clause discharged
@@ -84,6 +84,7 @@ class Harness:
         self.expect = expect
         self.timeout = timeout
         self.solver = solver
+        self.optional = optional  # an extra beyond the carrying proof: a time-out is recorded ("skipped: time budget") and does not make the run undecided
 
 
 class KaniUnit:
